@@ -149,6 +149,35 @@ func runTwinStream(seed int64, n int, out, backendSpec string) *RunReport {
 					fixed = append(fixed, QSpec{Coll: "t0", Steps: []QStep{{Kind: "where", C: &Crit{Kind: "cmp", Op: op, Field: fld, Val: Operand{Lit: lit}}}, {Kind: "sort", Opts: []SortOpt{{fld, dir}}}}})
 				}
 			}
+			// criteria served by one index, sort served by ANOTHER one (both exist in some twins, neither in others)
+			for _, pr := range [][2]string{{"a", "b"}, {"b", "a"}, {"x", "xy"}, {"xy", "x"}, {"n", "a"}, {"a", "n.a"}, {"s", "a"}, {"a", "t"}} {
+				for _, dir := range []int{1, -1} {
+					lit := pickOf(g, []interface{}{int(g.Intn(6)), int(g.Intn(3)), "a", float64(2.5)})
+					op := pickOf(g, []string{"OGt", "OGtEq", "OLt", "OLtEq", "OEq"})
+					fixed = append(fixed, QSpec{Coll: "t0", Steps: []QStep{{Kind: "where", C: &Crit{Kind: "cmp", Op: op, Field: pr[0], Val: Operand{Lit: lit}}}, {Kind: "sort", Opts: []SortOpt{{pr[1], dir}}}}})
+					if g.Bool() {
+						fixed = append(fixed, QSpec{Coll: "t0", Steps: []QStep{{Kind: "where", C: &Crit{Kind: "cmp", Op: op, Field: pr[0], Val: Operand{Lit: lit}}}, {Kind: "sort", Opts: []SortOpt{{pr[1], dir}}}, {Kind: "skip", N: 1}, {Kind: "limit", N: 2}}})
+					}
+				}
+			}
+			// conjunctions of two bounds on one field, every pairing of inclusive / exclusive / equality, literals on and next to each other
+			for _, fld := range []string{"a", "b", "x"} {
+				for _, op1 := range []string{"OGt", "OGtEq", "OLt", "OLtEq", "OEq"} {
+					for _, op2 := range []string{"OGt", "OGtEq", "OLt", "OLtEq", "OEq"} {
+						l1 := g.Intn(5)
+						l2 := l1 + g.Intn(3) - 1
+						c1 := &Crit{Kind: "cmp", Op: op1, Field: fld, Val: Operand{Lit: int(l1)}}
+						c2 := &Crit{Kind: "cmp", Op: op2, Field: fld, Val: Operand{Lit: pickOf(g, []interface{}{int(l2), float64(l2), uint8(l1 + 1)})}}
+						if g.Intn(4) == 0 {
+							c1 = &Crit{Kind: "not", A: c1}
+						}
+						if g.Intn(4) == 0 {
+							c2 = &Crit{Kind: "not", A: c2}
+						}
+						fixed = append(fixed, QSpec{Coll: "t0", Steps: []QStep{{Kind: "where", C: &Crit{Kind: "and", A: c1, B: c2}}}})
+					}
+				}
+			}
 			for k := 0; k < 25+len(fixed); k++ {
 				var q0 QSpec
 				if k < len(fixed) {
@@ -351,7 +380,11 @@ func runScaleStream(seed int64, n int, out, backendSpec, tier string) *RunReport
 	for round := 0; round < n; round++ {
 		for _, be := range backendsOf(backendSpec) {
 			for _, size := range sizes {
-				for sc := 0; sc < 7; sc++ {
+				for sc := 0; sc < 8; sc++ {
+					size := size
+					if sc == 7 && size == 1500 {
+						size = 4000 // a copy large enough to be flushed in several batches and to grow the bbolt file past its mapping
+					}
 					idxs := idxSets[(round+size+sc)%len(idxSets)]
 					if size >= 300 && sc <= 1 {
 						idxs = []string{"a"} // the rewritten field is indexed and drives the selection
@@ -416,6 +449,9 @@ func runScaleStream(seed int64, n int, out, backendSpec, tier string) *RunReport
 							{Kind: "sort", Opts: []SortOpt{{"a", -1}, {"_id", 1}}}, {Kind: "skip", N: 3}, {Kind: "limit", N: 120}}}
 					default:
 						qs = QSpec{Coll: "c", Steps: []QStep{{Kind: "sort", Opts: []SortOpt{{"a", 1}}}}}
+					}
+					if sc == 7 && size >= 300 {
+						qs = QSpec{Coll: "c"} // copy everything
 					}
 					if sc == 6 { // Delete through a sorted window without a limit
 						qs = QSpec{Coll: "c", Steps: []QStep{{Kind: "sort", Opts: []SortOpt{{"k", -1}}}, {Kind: "skip", N: 4}}}
@@ -584,6 +620,41 @@ func runScaleStream(seed int64, n int, out, backendSpec, tier string) *RunReport
 							f.failf("a re-created index on %s yields %d documents of %d; %s", fld, len(via), len(before), desc)
 						}
 						distinct[fmt.Sprintf("dropidx/%d/%s", len(idxs), sizeClass(size))] = true
+					case 7: // CreateCollectionByQuery copies exactly the selected documents and leaves the source alone
+						r := rec(&Op{Kind: "CreateByQuery", Coll: "cq", Q: qs})
+						evals++
+						if env.wedged {
+							f.failf("CreateCollectionByQuery did not return (handle wedged); %s", desc)
+							break
+						}
+						if errKind(r) != "e0" {
+							f.failf("CreateCollectionByQuery failed: %s; %s", Tstr(r), desc)
+							break
+						}
+						copied, _ := db.FindAll(query.NewQuery("cq"))
+						if len(copied) != len(selected) {
+							f.failf("CreateCollectionByQuery copied %d documents, the query selects %d; %s", len(copied), len(selected), desc)
+						}
+						for _, doc := range copied {
+							old := beforeById[doc.ObjectId()]
+							if old == nil || !selIds[doc.ObjectId()] || Tstr(tValue(old.AsMap())) != Tstr(tValue(doc.AsMap())) {
+								f.failf("CreateCollectionByQuery produced document %s which is not a selected source document; %s", doc.ObjectId(), desc)
+								break
+							}
+						}
+						if cnt, _ := db.Count(query.NewQuery("cq")); cnt != len(copied) {
+							f.failf("Count of the copy is %d, FindAll returns %d; %s", cnt, len(copied), desc)
+						}
+						afterAll, _ := db.FindAll(query.NewQuery("c"))
+						if len(afterAll) != len(before) {
+							f.failf("CreateCollectionByQuery changed the source from %d to %d documents; %s", len(before), len(afterAll), desc)
+						}
+						// the handle still works
+						r2 := rec(&Op{Kind: "Insert", Coll: "cq", Docs: []map[string]interface{}{scaleDoc(size + 5)}})
+						if errKind(r2) != "e0" {
+							f.failf("Insert after CreateCollectionByQuery failed: %s; %s", Tstr(r2), desc)
+						}
+						distinct[fmt.Sprintf("copy/%d/%s", len(idxs), sizeClass(size))] = true
 					default: // Delete through a sorted window, then bulk Update with the map form
 						r := rec(&Op{Kind: "Update", Q: qs, KVs: map[string]interface{}{"a": int64(4), "z": "new"}})
 						evals++
@@ -603,6 +674,11 @@ func runScaleStream(seed int64, n int, out, backendSpec, tier string) *RunReport
 						}
 						auditKeys("after Update", len(before), len(idxs), true)
 						distinct[fmt.Sprintf("updatemap/%d/%s", len(idxs), sizeClass(size))] = true
+					}
+					if env.wedged {
+						f.failf("an operation did not return within its deadline (scenario %d); %s", sc, desc)
+						env.destroy()
+						continue
 					}
 					if via, err := db.FindAll(query.NewQuery("c2").Sort(query.SortOption{Field: "a", Direction: 1})); err != nil || len(via) != 8 {
 						f.failf("the sibling collection lost documents or index entries (%d of 8 through its index, err %v); %s", len(via), err, desc)
